@@ -1846,6 +1846,7 @@ class Interp:
         which = st.branch(2, 'loop:%s' % ann.name)
         self.do_havoc(s, fr, ann)
         if getattr(ann, 'havoc', None) is not None:
+            object.__setattr__(view, '_exit_path', which == 1)
             ann.havoc(view)
         st.assume(ann.invariant(view, None))
         if which == 0:
@@ -1855,6 +1856,11 @@ class Interp:
             try:
                 self.block(s.body, fr)
             except _Break:
+                if getattr(ann, 'exit_any', False):
+                    # the code after the loop is examined once, from the havoc'd state with the loop test left open (other branch); a
+                    # state that leaves by break only has to be one of those states
+                    st.prove('inv:%s#break' % ann.name, ann.invariant(view, None), kind='helper')
+                    raise LoopCutEnd()
                 return
             except _Continue:
                 pass
@@ -1864,6 +1870,10 @@ class Interp:
                 st.prove('var:%s' % ann.name, mk(z3.And(zint(v0) >= 0, zint(v1) < zint(v0))), kind='helper')
             raise LoopCutEnd()
         else:
+            if getattr(ann, 'exit_any', False):
+                if s.orelse:
+                    raise Unsupported('exit_any on a while loop with an else clause')
+                return
             if self.decide(self.ev(s.test, fr)):
                 raise PathAbort()
             self.block(s.orelse, fr)
